@@ -1,4 +1,4 @@
-import vf, renders, c07b
+import vf, renders, c07b, importlib
 
 KINDS = [("function", dict(np=1)), ("macro", dict(np=1)), ("variable", dict(vtype="str")), ("variable", dict(vtype="UNSET")),
          ("option", dict(default=False)), ("generic", dict(np=1)), ("ctest", dict(np=1)), ("test", {}), ("section", {}),
@@ -25,5 +25,11 @@ def build(tier):
     # long pieces (names, parameters, doc words of 120+ characters): no wrapping / truncation anywhere in the renderers
     for (k, sh) in (KINDS if not quick else [KINDS[0], KINDS[4], KINDS[10]]):
         obs.append(renders.render_ob('C07.a', k, sh, (0, 4), 1, timeout=400 if quick else 1800, fill='w' * 120))
+    # module doccomment bodies (indented continuation lines, nested directive bodies) reach the module directive with their own indentation
+    C12 = importlib.import_module('C12')
+    for (hn, bl) in (((True, (2, 3, 0, 2)),) if quick else ((True, (2, 3, 0, 2)), (False, (3, 3)), (True, (0, 4)))):
+        o = C12.mod_ob(hn, 2, bl, 2, True, 300 if quick else 1200)
+        o.name = o.name.replace('C12.c', 'C07.a module doccomment body')
+        obs.append(o)
     obs.append(c07b.ob_docutils())
     return dict(obligations=obs, explanation="x", assumptions=[])
